@@ -1,163 +1,10 @@
+import OPM.Model.InterpBase
+import OPM.Model.MacroCascade
 /-
-M3 Interp — executable model of the P-code interpreter
-(`openpectus/lang/exec/pinterpreter.py`, `visitor.py`, runtime flags of `lang/model/ast.py`).
-
-Python generators are modelled as explicit frame stacks (a defunctionalised coroutine): every
-`yield VisitResult.EndTick` of the source is a point where `stepGen` returns `Signal.endTick`;
-`ContinueTick` yields are not tick boundaries and are elided.  One `Gen` per Python generator
-object: the main visitor (gid 0) and one per registered interrupt (Watch / Alarm / Injected).
-
-What is abstracted (inputs of the model, supplied by the harness per tick):
- * clocks: the scope clock and the block clock values (the tags the base unit provider names),
- * condition tags: integer tag values; a condition is `tag op const` over integers,
- * completion of engine/UOD command nodes (op `complete`), cancel / force requests,
- * whether a command name is known to the engine (`cmdFails`).
-Not modelled: exceptions raised outside a node body (threshold evaluation errors), sep paths as
-strings, run-log records (see Model/RunLog), the `Noop` debug instruction.
-Core Lean only.
+M3 Interp — the interpreter machine proper (runtime helpers, micro-steps, tick, requests).
+Types and static helpers: OPM.Model.InterpBase; repaired macro recursion check: OPM.Model.MacroCascade.
 -/
 namespace OPM.Interp
-
-inductive Op where | lt | le | eq | ne | gt | ge
-deriving Repr, DecidableEq, Inhabited
-
-structure Cond where
-  tag : Nat
-  op : Op
-  val : Int
-deriving Repr, DecidableEq, Inhabited
-
-inductive Kind where
-  | program
-  | blank (trailing : Bool)          -- Blank / Comment; `has_only_trailing_whitespace`
-  | mark (name : String)
-  | simple (label : String)          -- Batch, Notify, Simulate, Simulate off, Run counter, Increment run counter
-  | base (factor : Rat) (unit : String)   -- Base: s|min|h  (factor = seconds per unit)
-  | failing (label : String)         -- instruction whose body raises after mark_started (error instruction, bad Base …)
-  | macro (name : String)
-  | call (name : String)
-  | block (name : String)
-  | endBlock
-  | endBlocks
-  | wait (seconds : Rat)
-  | watch (c : Cond)
-  | alarm (c : Cond)
-  | cmd (name : String) (fails : Bool)   -- Engine / UOD command: handed to the engine
-  | injected
-deriving Repr, Inhabited
-
-structure Node where
-  kind : Kind
-  parent : Option Nat
-  children : List Nat
-  threshold : Option Rat
-  keyPath : List Nat := []    -- code points of `Node.key_path`; used only for the sort in `get_locked_blocks`
-  inProgram : Bool := true    -- false for injected nodes (not reachable from the program root)
-deriving Repr, Inhabited
-
-abbrev Prog := Array Node
-
-structure NodeRt where
-  started : Bool := false
-  completed : Bool := false
-  failed : Bool := false
-  cancelled : Bool := false
-  forced : Bool := false
-  childIndex : Nat := 0
-  childrenComplete : Bool := false
-  interruptRegistered : Bool := false
-  activated : Bool := false
-  blockEnded : Bool := false
-  lockAcquired : Bool := false
-  runCount : Nat := 0
-  runStarted : Nat := 0
-  runCompleted : Nat := 0
-  isRegistered : Bool := false
-  waitStart : Option Rat := none
-  hasRecord : Bool := false      -- a runtime record exists (`runtimeinfo.begin_visit` ran for the node)
-deriving Repr, Inhabited, DecidableEq
-
-inductive Event where
-  | start (n : Nat)                 -- wrapper set `started`
-  | effect (n : Nat) (what : String) -- the instruction's effect (Mark set, command scheduled, …)
-  | complete (n : Nat)
-  | fail (n : Nat)
-  | bodyStart (n : Nat)             -- Watch / Alarm / Injected / Call macro / Block body begins
-  | blockStart (name : String)
-  | blockEnd (old new : String)
-  | scopeStart (n : Nat)
-  | scopeActivate (n : Nat)
-  | scopeEnd (n : Nat)
-  | methodEnd
-  | register (n : Nat)
-  | unregister (n : Nat)
-deriving Repr, DecidableEq, Inhabited
-
-inductive Frame where
-  | wrapEnter (n : Nat)
-  | wrapThr (n : Nat)
-  | wrapDispatch (n : Nat)          -- after the unconditional EndTick of `visit_Node`
-  | wrapAfter (n : Nat)
-  | children (n : Nat) (inx : Nat) (inChild : Bool)
-  | body (n : Nat) (pc : Nat)
-  | callRet (n : Nat) (m : Nat)          -- `visit_CallMacroNode` after visiting macro node `m` (a local variable)
-  | waitLoop (n : Nat) (endT : Rat)      -- `Wait` loop; `duration_end_time` is a local variable
-deriving Repr, DecidableEq, Inhabited
-
-structure Gen where
-  gid : Nat
-  node : Nat           -- interrupt node (0 = program for the main generator)
-  stack : List Frame   -- head = innermost frame; [] = exhausted
-deriving Repr, Inhabited
-
-structure St where
-  rt : Nat → NodeRt := fun _ => {}     -- total map node ↦ runtime record (function update; see `setRt`)
-  gens : List Gen := []
-  imap : List (Nat × Nat) := []        -- `_interrupts_map`: node ↦ gid, Python dict order
-  nextGid : Nat := 1
-  macros : List (String × Nat) := []   -- `program.macros`, Python dict order
-  marks : List String := []            -- Mark tag = "; ".join
-  blockTag : Option String := none
-  baseFactor : Rat := 60               -- Base default "min"
-  baseUnit : String := "min"
-  events : List Event := []            -- newest first
-  lastError : Option Nat := none
-  tickTime : Rat := 0
-  scopeClock : Rat := 0
-  blockClock : Rat := 0
-  tags : List Int := []
-  inInterrupt : Bool := false
-deriving Inhabited
-
-inductive Signal where | cont | endTick | done
-deriving Repr, DecidableEq
-
-/-! ### static helpers -/
-
-def node (p : Prog) (n : Nat) : Node := p.getD n default
-
-/-- `Node.parents` (nearest first), bounded by the program size. -/
-def ancestorsAux (p : Prog) : Nat → Nat → List Nat
-  | 0, _ => []
-  | fuel + 1, n =>
-    match (node p n).parent with
-    | none => []
-    | some q => q :: ancestorsAux p fuel q
-
-def ancestors (p : Prog) (n : Nat) : List Nat := ancestorsAux p p.size n
-
-/-- `get_child_nodes(recursive=True)`. -/
-def descendantsAux (p : Prog) : Nat → Nat → List Nat
-  | 0, _ => []
-  | fuel + 1, n => (node p n).children.flatMap (fun c => c :: descendantsAux p fuel c)
-
-def descendants (p : Prog) (n : Nat) : List Nat := descendantsAux p p.size n
-
-def isBlock (p : Prog) (n : Nat) : Bool :=
-  match (node p n).kind with | .block _ => true | _ => false
-
-def blockName (p : Prog) (n : Nat) : String :=
-  match (node p n).kind with | .block nm => nm | _ => ""
 
 /-! ### runtime helpers -/
 
@@ -414,8 +261,8 @@ def stepBody (p : Prog) (s : St) (n pc : Nat) (below : List Frame) : Out :=
       match s.macros.lookup name with
       | none => .raise (markFailed s n)
       | some m =>
-        match macroCallingMacro p s.macros name recursionLimit m with
-        | none => .raise s     -- RecursionError inside the cascade check: caught by the wrapper
+        match OPM.MacroCheck.cascade p s.macros name m with
+        | none => .raise s     -- unreachable: the repaired check always answers (C41.recursion_check_total)
         | some cascade =>
           if cascade.contains name then .raise (markFailed s n)
           else
